@@ -405,6 +405,18 @@ pub fn build_node(it: &J) -> P {
                 con(f.iter().map(build_node).collect(), false)
             }
         }
+        "adj" if it.get("head").map_or(false, |h| h["kind"] == "cmd") => {
+            // adjacent subcommand: named members and then positional members form its own parser
+            let members = arr(it, "members");
+            let mut fields: Vec<P> = members.iter().filter(|m| m["kind"] != "pos").map(build_node).collect();
+            fields.extend(members.iter().filter(|m| m["kind"] == "pos").map(build_node));
+            let names = arr(&it["head"], "names");
+            let mut c = con(fields, false).to_options().command(leak(&dstr(names[0].as_str().unwrap())));
+            for a in &names[1..] {
+                c = c.long(leak(&dstr(a.as_str().unwrap())));
+            }
+            c.adjacent().boxed()
+        }
         "adj" if it.get("head").is_some() => {
             let mut fields = vec![build_node(&it["head"])];
             fields.extend(arr(it, "members").iter().map(build_node));
